@@ -772,7 +772,7 @@ MUTATORS["drop_bucket_item"][1].extend(["C13", "C14", "C20"])
 MAIN.update({
     "C10": dict(
         mc=dict(quick=[mc("MC_Forest.cfg", "cancel_txn", {"WithCancel": "TRUE", "WithTxn": "TRUE", "Ids": "{1, 2, 3}", "Toks": "{\"a\"}"})],
-                thorough=[mc("MC_Forest.cfg", "cancel_txn_2toks", {"WithCancel": "TRUE", "WithTxn": "TRUE"}, timeout=2400)]),
+                thorough=[mc("MC_Forest.cfg", "cancel_txn_2toks", {"WithCancel": "TRUE", "WithTxn": "TRUE"}, timeout=700)]),
         traces=dict(quick=[dict(family="cancel", jobs=6, count=2, threads=[1, 1, 1, 4, 1, 2]), dict(family="faults", jobs=2, count=1, hist_per_count=10, seed_off=50)],
                     thorough=[dict(family="cancel", jobs=12, count=8, threads=[1, 1, 4, 1, 2, 16]), dict(family="faults", jobs=4, count=4, hist_per_count=10, seed_off=50)]),
         distinct=distinct_events, sample_event="Build",
@@ -781,7 +781,7 @@ MAIN.update({
     ),
     "C14": dict(
         mc=dict(quick=[mc("MC_Batch.cfg", "batch_liveness")],
-                thorough=[mc("MC_Batch.cfg", "batch_liveness"), mc("MC_Batch.cfg", "batch_liveness_cap1_2", {"Caps": "{1, 2}", "MaxBuilds": "2", "Ids": "{1, 2, 3}"}, timeout=2400),
+                thorough=[mc("MC_Batch.cfg", "batch_liveness"), mc("MC_Batch.cfg", "batch_liveness_cap1_2", {"Caps": "{1, 2}", "MaxBuilds": "2", "Ids": "{1, 2, 3}"}, timeout=900),
                           mc("MC_Batch.cfg", "sens_batch_as_coded", {"AsCodedBatch": "TRUE"}, expect=True)]),
         traces=dict(quick=[dict(family="mem", jobs=8, count=3, threads=[1, 1, 2, 1])], thorough=[dict(family="mem", jobs=16, count=20, threads=[1, 1, 2, 4])]),
         distinct=distinct_forests, sample_event="Build",
@@ -801,7 +801,7 @@ def mcn(tag, overrides=None, expect=False, timeout=900):
 
 MAIN["C13"] = dict(
     mc=dict(quick=[mcn("ids_2x3"), mcn("sens_non_atomic", {"Atomic": "FALSE", "MaxReq": "2"}, expect=True)],
-            thorough=[mcn("ids_2x3"), mcn("ids_3x3", {"Threads": "{1, 2, 3}", "MaxReq": "3"}, timeout=2400),
+            thorough=[mcn("ids_2x3"), mcn("ids_3x3", {"Threads": "{1, 2, 3}", "MaxReq": "3"}, timeout=900),
                       mcn("sens_non_atomic", {"Atomic": "FALSE", "MaxReq": "2"}, expect=True)]),
     traces=dict(quick=[dict(profile="parallel", jobs=6, count=30, threads=[2, 4, 8, 16, 3, 16])],
                 thorough=[dict(profile="parallel", jobs=12, count=400, threads=[2, 4, 8, 16, 3, 16])]),
@@ -825,7 +825,7 @@ def txn_jobs(n, count, kind, module="TraceTxn.tla"):
 
 MAIN["C08"] = dict(
     mc=dict(quick=[mct("txn_2readers_3versions"), mc("MC_Store.cfg", "store_txn")],
-            thorough=[mct("txn_3readers_4versions", {"Readers": "{1, 2, 3}", "MaxVersion": "4"}, timeout=2400), mc("MC_Store.cfg", "store_txn")]),
+            thorough=[mct("txn_3readers_4versions", {"Readers": "{1, 2, 3}", "MaxVersion": "4"}, timeout=900), mc("MC_Store.cfg", "store_txn")]),
     traces=dict(quick=[dict(profile="store", jobs=2, count=40, seed_off=21)], thorough=[dict(profile="store", jobs=4, count=400, seed_off=21)]),
     extra_jobs=dict(quick=txn_jobs(6, 6, "txn"), thorough=txn_jobs(12, 60, "txn")),
     distinct=lambda results: dict(n=sum(r["stats"].get("observations", 0) for r in results) + sum(r["stats"]["histories"] for r in results),
@@ -834,7 +834,7 @@ MAIN["C08"] = dict(
     sample_event="Abort", selftest_as="C08",
 )
 MAIN["C09"] = dict(
-    mc=dict(quick=[mct("txn_crash")], thorough=[mct("txn_crash_3readers", {"Readers": "{1, 2, 3}", "MaxVersion": "4"}, timeout=2400)]),
+    mc=dict(quick=[mct("txn_crash")], thorough=[mct("txn_crash_3readers", {"Readers": "{1, 2, 3}", "MaxVersion": "4"}, timeout=900)]),
     traces=dict(quick=[], thorough=[]),
     extra_jobs=dict(quick=txn_jobs(6, 2, "crash"), thorough=txn_jobs(12, 6, "crash")),
     distinct=lambda results: dict(n=sum(r["stats"].get("kill_points", 0) for r in results),
